@@ -428,3 +428,41 @@ func (s *sess) checkStateReadAfterDecode(rule string) {
 	}
 	c.Check(n >= 5, rule, "", "inbound handlers found", token.NoPos, fmt.Sprint(n), fmt.Sprintf("only %d inbound handlers", n))
 }
+
+// checkCallbacksOutsideStateLock: the event subscribers and the application's logon callback are application code that may
+// look at the session (IsLogged, a state change of its own): they are called with none of the session's own mutexes held —
+// otherwise the first callback that reads the state blocks for ever on the non-reentrant lock, and with it the goroutine that
+// dispatches inbound messages.
+func (s *sess) checkCallbacksOutsideStateLock(rule string) {
+	c := s.c
+	n := 0
+	for _, fn := range s.allFuncs() {
+		an.AllInstrs(fn, func(in ssa.Instruction) {
+			call, ok := in.(*ssa.Call)
+			if !ok {
+				return
+			}
+			what := ""
+			switch {
+			case an.CalleeIs(&call.Call, "utils", "EventHandlerPool.Trigger"):
+				what = "EventHandlerPool.Trigger"
+			case !call.Call.IsInvoke() && an.StaticCallee(&call.Call) == nil:
+				if f, base := an.LoadedField(call.Call.Value); f != nil && base != nil && s.m.IsSessionVal(base) && an.FieldName(f) == "LogonHandler" {
+					what = "Session.LogonHandler"
+				}
+			}
+			if what == "" {
+				return
+			}
+			n++
+			held := an.HeldAt(fn, call)
+			bad := ""
+			for _, k := range an.SortedKeys(held) {
+				bad = k
+			}
+			c.Check(bad == "", rule, an.NameOf(fn), what+" is called with no mutex of the session held", call.Pos(), "lock released before the callbacks run",
+				fmt.Sprintf("%s is called in %s while %s is held: a subscriber that reads or changes the session state (IsLogged, Stop, Logout) blocks for ever, and the goroutine that triggered the event with it", what, an.NameOf(fn), bad))
+		})
+	}
+	c.Check(n >= 2, rule, "", "callback invocations found", token.NoPos, fmt.Sprint(n), fmt.Sprintf("only %d calls of Trigger/LogonHandler found in package session", n))
+}
